@@ -307,3 +307,9 @@ Proof.
     + eapply Permutation_in; [exact P|exact Hin].
   - apply ssort_sorted.
 Qed.
+
+Lemma conj_contractible' ci l : contractible ci (conj_leg l) l = true.
+Proof.
+  unfold contractible, leg_equal, conj_leg. cbn [blocks qc].
+  apply all2_refl. intros x. rewrite Z.eqb_refl, veqb_refl. reflexivity.
+Qed.
